@@ -313,3 +313,58 @@ macro_rules! c05_scope {
 }
 c05_scope!(c05_scope_cur_root, false);
 c05_scope!(c05_scope_root_cur, true);
+
+// ---------------------------------------------------------------------------
+// C03 (filter route, real core::fmt): children kept by a filter are reported under
+// their own index even when they hold equal values. Array [x, x], predicate @ == c.
+proof_fmt!(c03_filter_route_dup, 12, {
+    let root = Mini::Null;
+    let mut sc = Scratch::new();
+    let x: i64 = any_ijson();
+    sc.elems[0] = Mini::Int(x);
+    sc.elems[1] = Mini::Int(x);
+    let node = sc.arr_c(2);
+    let mut e = m_sqs_index(0);
+    let mut cmp = MCmp { tag: OP_EQ, a: mc_sq(SQ_CURRENT, sqs_empty(&mut e)), b: mc_lit(Literal::Int(x)) };
+    let f = Filter::Atom(FilterAtom::Comparison(cmp_box(&mut cmp)));
+    let r = f.process(State::data(&root, Data::Ref(Pointer::new(&node, String::from("$")))));
+    if let Data::Refs(v) = &r.data {
+        assert!(v.len() == 2, "both equal elements satisfy @ == x");
+        let p0 = v[0].path.as_bytes();
+        let p1 = v[1].path.as_bytes();
+        assert!(p0.len() == 4 && p0[0] == b'$' && p0[1] == b'[' && p0[2] == b'0' && p0[3] == b']', "first kept child must be reported as $[0]");
+        assert!(p1.len() == 4 && p1[0] == b'$' && p1[1] == b'[' && p1[2] == b'1' && p1[3] == b']', "second kept child must be reported as $[1], not under the index of an equal earlier element");
+    } else {
+        assert!(false, "filter on an array must yield a nodelist");
+    }
+    kani::cover!(true, "end reached");
+    forget(r);
+    forget(f);
+    forget(sc);
+});
+
+// ---------------------------------------------------------------------------
+// C05: `$` inside a filter denotes the document root also when the absolute query
+// starts with a filter selector: `?$[?@ == c]` is true iff some child of the ROOT
+// equals c, whatever the current node is.
+proof!(c05_abs_query_filter, 6, {
+    let mut sr = Scratch::new();
+    let (r0, r1, c): (i64, i64, i64) = (kani::any(), kani::any(), any_ijson());
+    sr.elems[0] = Mini::Int(r0);
+    sr.elems[1] = Mini::Int(r1);
+    let root = sr.arr_c(2);
+    let current = Mini::Null;
+    let mut e = m_sqs_index(0);
+    let mut cmp = MCmp { tag: OP_EQ, a: mc_sq(SQ_CURRENT, sqs_empty(&mut e)), b: mc_lit(Literal::Int(c)) };
+    let mut seg = m_filter(Filter::Atom(FilterAtom::Comparison(cmp_box(&mut cmp))));
+    let mut t = Test::AbsQuery(crate::parser::model::JpQuery::new(seg_vec(&mut seg, 1)));
+    let atom = FilterAtom::Test { expr: tbox(&mut t), not: false };
+    let r = atom.process(State::data(&root, Data::Ref(Pointer::empty(&current))));
+    let got = matches!(r.data, Data::Value(Mini::Bool(true)));
+    assert!(got == (r0 == c || r1 == c), "`?$[?@ == c]` must test the children of the document root");
+    kani::cover!(got, "some root child equals c");
+    kani::cover!(!got, "no root child equals c");
+    forget(r);
+    forget(atom);
+    forget(sr);
+});
